@@ -600,4 +600,14 @@ where
       else (s, .err .noData)
     | none => (s, .err .notFound)
 
+/-- `attributes.removeNamedItem(name)` = look the attribute up (NOT_FOUND_ERR if there is none), remove it by that
+    name, hand it back; `attributes.setNamedItem` = `setAttributeNode`, `attributes.getNamedItem` = `getAttributeNode` -/
+def removeNamedItem (s : St) (e : Nat) (name : Str) : St × Res :=
+  match s.find e with
+  | some en =>
+    (match findAttrRaw en name with
+     | some o => ((step s (.removeAttribute e name)).1, .node o.id)
+     | none => (s, .err .notFound))
+  | none => (s, .err .notFound)
+
 end XmlRs.Dom
